@@ -130,6 +130,8 @@ def run_case(kind, q):
         frames = np.stack([impl.noise_frame(rng, shape, fk) for fk in q["frame_kinds"]])
         if q.get("dtype"):
             frames = np.round(frames).clip(0, 60000).astype(q["dtype"])
+            if q.get("level"):       # integer counts on a large constant level (summed / offset detector data)
+                frames = frames + np.asarray(q["level"], dtype=q["dtype"])
         peaks = np.asarray(q["peaks"], dtype=np.float64)
         if kind == "frame_udfs":
             zs = q["zero_shift"]
@@ -241,7 +243,8 @@ def gen(rng, k):
             "peaks": peaks.tolist(), "zero_shift": zs, "partitions": partitions_of(rng, nfr),
             "limit": [None, 1, full, 2 * full + 3, npk * full, 10 * npk * full][k % 6],
             "upsample": [False, 4][(k // 3) % 2], "backend": [UDF.BACKEND_NUMPY, UDF.BACKEND_SPARSE_COO][(k // 2) % 2],
-            "dtype": [None, "uint16", "float64"][k % 3]}
+            "dtype": [None, "uint16", "float64", "int32", "uint32", "int64"][k % 6] if (k // 6) % 2 else [None, "uint16", "float64"][k % 3],
+            "level": {3: 2 ** 30, 4: 3 * 2 ** 30, 5: 2 ** 40}.get(k % 6, 0) if (k // 6) % 2 else 0}
 
 
 def search(ctx, boost=1, focus=()):
